@@ -691,6 +691,24 @@ def call_branch(e, call):
         for fa in atom_facts(leaf, True):
             if fa[0] == "b" and fa[1] == cs:
                 return (b, t, fl) if fa[3] else (b, fl, t)
+    # `const bool ok = call; if(!ok) ...`: the result is kept in a local that is never re-assigned and tested later
+    p = e.parent(call)
+    while p is not None and p.get("k") == "Cast":
+        p = e.parent(p)
+    if p is not None and p.get("k") == "Var" and (e.fn.type(p.get("t")) or "").replace("const ", "").strip() == "bool":
+        v = p["n"]
+        reassigned = any(((x.get("k") == "Assign") or (x.get("k") == "Un" and x.get("op") in ("++", "--")))
+                         and root_var(x.get("lhs") or x.get("e")) == v for x in e.fn.nodes())
+        if not reassigned:
+            w = e.where(call)
+            for b in e.el:
+                br = e.branch(b)
+                if br is None:
+                    continue
+                leaf, t, fl = br
+                for fa in atom_facts(leaf, True):
+                    if fa[0] == "b" and fa[1] == v and w is not None and (b == w[0] or w[0] in e.cfg.dom.get(b, ())):
+                        return (b, t, fl) if fa[3] else (b, fl, t)
     return None
 
 
@@ -745,6 +763,8 @@ def this_counter(fn):
     for n in fn.nodes():
         if n.get("k") == "Un" and n.get("op") == "++" and is_this_field(n["e"]):
             out.append((strip(n["e"])["n"], n))
+        elif n.get("k") == "Assign" and n.get("op") == "+=" and is_this_field(n["lhs"]) and norm(n["rhs"]) == "1":
+            out.append((strip(n["lhs"])["n"], n))
     return out
 
 
@@ -2625,12 +2645,16 @@ class CursorInterp:
     `p[k]`, segments `for(i..n) p[i] <-> field[i]`, cursor advances `p += n`.  Lengths are sympy expressions over
     N_<container> (sizes), F_<field> (scalar fields) and S<k> (header slots, reader side)."""
 
-    def __init__(self, W, fn, role):
+    def __init__(self, W, fn, role, env=None):
+        """env = None: symbolic general case (emptiness early-outs skipped, `c.empty() ? a : b` -> b).
+        env = {symbol name: int}: concrete state; every condition is evaluated, early-outs are taken."""
         import sympy
         self.sp = sympy
         self.W = W
         self.fn = fn
         self.role = role
+        self.env = env
+        self.returned = False
         self.ptr = {}
         self.val = {}
         self.slots = {}        # writer: slot offset -> expr ; reader: expectations slot -> expr
@@ -2644,7 +2668,34 @@ class CursorInterp:
         self.buffer = None
 
     def S(self, name):
+        if self.env is not None and name in self.env:
+            return self.sp.Integer(self.env[name])
         return self.sp.Symbol(name, integer=True, nonnegative=True)
+
+    def truth(self, c):
+        """concrete value of a condition (None if it cannot be decided)"""
+        c = strip(c)
+        try:
+            if c.get("k") == "Un" and c.get("op") == "!":
+                t = self.truth(c["e"])
+                return None if t is None else (not t)
+            if c.get("k") == "Bin" and c["op"] in ("&&", "||"):
+                a, b = self.truth(c["lhs"]), self.truth(c["rhs"])
+                if a is None or b is None:
+                    return None
+                return (a and b) if c["op"] == "&&" else (a or b)
+            if c.get("k") == "MCall" and c.get("n") == "empty" and not c.get("a"):
+                sz = self.sym({"k": "MCall", "n": "size", "obj": c.get("obj"), "a": []})
+                return bool(sz == 0) if sz.is_Integer else None
+            p = cmp_parts(c)
+            if p is not None:
+                a, b = self.sym(p[1]), self.sym(p[2])
+                if a.is_Integer and b.is_Integer:
+                    a, b = int(a), int(b)
+                    return {"<": a < b, ">": a > b, "<=": a <= b, ">=": a >= b, "==": a == b, "!=": a != b}[p[0]]
+        except Unknown:
+            return None
+        return None
 
     def sym(self, n):
         sp = self.sp
@@ -2683,6 +2734,8 @@ class CursorInterp:
                 if is_this_field(so):
                     if self.role == "r" and so["n"] in self.sizes:
                         return self.sizes[so["n"]]
+                    if self.role == "r" and self.env is not None:
+                        return self.sp.Integer(0)       # member containers start empty in the deserialising constructor
                     return self.S("N_" + so["n"])
                 if so.get("k") == "Ref":
                     return self.S("BYTES") if so["n"] == self.buffer else self.S("N_" + so["n"])
@@ -2701,6 +2754,11 @@ class CursorInterp:
         """value in the general (non-empty) case: `c.empty() ? a : b` -> b"""
         n = strip(n)
         if n.get("k") == "Cond":
+            if self.env is not None:
+                t = self.truth(n["c"])
+                if t is None:
+                    raise Unknown("conditional " + render(n)[:60])
+                return self.sym(n["then"] if t else n["else"])
             c = strip(n["c"])
             if c.get("k") == "MCall" and c.get("n") == "empty":
                 return self.sym(n["else"])
@@ -2714,7 +2772,7 @@ class CursorInterp:
         self.block(self.fn.body)
 
     def block(self, n):
-        if n is None:
+        if n is None or self.returned:
             return
         k = n.get("k")
         try:
@@ -2724,6 +2782,14 @@ class CursorInterp:
             elif k == "Decl":
                 for v in n.get("vars", []):
                     self.decl(v)
+            elif k == "Return":
+                if self.env is not None:
+                    self.returned = True
+            elif k == "If" and self.env is not None:
+                t = self.truth(n["c"])
+                if t is None:
+                    raise Unknown("condition `%s` undecided in the concrete state" % render(n["c"])[:60])
+                self.block(n.get("then") if t else n.get("else"))
             elif k == "If":
                 th = n.get("then")
                 stm = th.get("s", []) if th is not None and th.get("k") == "Block" else [th]
